@@ -35,6 +35,10 @@ def stepOverlay (st : Stack) (toks : List String) : Stack × String :=
     match unhexOpt s, unhexOpt e, parseOrder o with
     | some s, some e, some o => (st, fmtRecords (st.range s e o))
     | _, _, _ => (st, "bad-op")
+  | ["range", s, e, o, n] =>      -- the first n records passed over (`Iterator::nth`), the rest collected
+    match unhexOpt s, unhexOpt e, parseOrder o with
+    | some s, some e, some o => (st, fmtRecords ((st.range s e o).drop (n.toNat?.getD 0)))
+    | _, _, _ => (st, "bad-op")
   | ["keys", s, e, o] =>
     match unhexOpt s, unhexOpt e, parseOrder o with
     | some s, some e, some o => (st, fmtList ((st.range s e o).map (·.1)))
@@ -157,6 +161,13 @@ def stepViews (m : Store Val) (toks : List String) : Store Val × String :=
     | some p, some s, some e, some o =>
       match pathPrefix p with
       | .ok pfx => (m, fmtList ((View.range m pfx s e o).map (·.2)))
+      | _ => (m, "panic")
+    | _, _, _, _ => (m, "bad-op")
+  | ["vrange", p, _rw, s, e, o, n] =>
+    match parsePath p, unhexOpt s, unhexOpt e, parseOrder o with
+    | some p, some s, some e, some o =>
+      match pathPrefix p with
+      | .ok pfx => (m, fmtRecords ((View.range m pfx s e o).drop (n.toNat?.getD 0)))
       | _ => (m, "panic")
     | _, _, _, _ => (m, "bad-op")
   | ["vrange", p, _rw, s, e, o] =>
